@@ -273,6 +273,15 @@ def _empty_density_partner(node, recs, path):
     return False
 
 
+def _skip_calls(node, recs, path, idx):
+    rec = recs.get(path)
+    if rec is not None:
+        idx[path] = len(rec.calls)
+    for c, suffix in (("a", "a"), ("b", "b")):
+        if c in node and isinstance(node[c], dict):
+            _skip_calls(node[c], recs, path + ("s" if node["s"] == "static" else suffix), idx)
+
+
 def static_children(node, path="r"):
     if node["s"] == "static":
         yield path, node
@@ -327,6 +336,13 @@ def run_c02(case):
                         rows = 0 if pts.isempty else len(pts.as_tensor)
                         hist_log.append(["sample", len(params), rows])
                         k = len(params)
+                        if _empty_density_partner(case["samp"], recs, "r"):
+                            # excluded cell: a density(+filter) leaf produced no point at all
+                            stats["excluded_empty_partner"] = 1
+                            _skip_calls(case["samp"], recs, "r", idx)
+                            last_free_rows = None
+                            pending_len = None
+                            continue
                         want = rows_of(case["samp"], k)
                         if want is not None and rows != want:
                             out.append(viol("C02", "row-count", "rows!=expected", "root", rows=rows, want=want, k=k))
@@ -408,6 +424,8 @@ def run_c15(case):
         except Exception as ex:
             if case["kind"] == "static" and "got size 0" in str(ex):
                 stats["excluded_empty_partner"] = 1   # as in C02: empty density partner sample
+            elif innermost_site(ex.__traceback__).endswith("_check_iteration_number") and case.get("fault"):
+                stats["documented_giveup"] = 1
             else:
                 out.append(viol("C15", "call", "raises:" + type(ex).__name__, innermost_site(ex.__traceback__),
                                 msg=str(ex)[:200]))
